@@ -152,3 +152,31 @@ Theorem C10_cached_over_caches : forall id a ops,
   answers_equiv (source (SCached id a)) ops ans ref 0 = 0.
 Proof. exact WarmTreeHist.warm_chist_transparent. Qed.
 Print Assumptions C10_cached_over_caches.
+
+(* ---- the same for trees that ALSO contain combined-map leaves (SourceMapSource with an inner
+   map): caches nested anywhere, any warm state, any mix of option sets ---- *)
+From RS Require Proofs.CombLeafTree Proofs.WarmCombBounds Proofs.WarmCombHist.
+Theorem C10_transparent_warm_caches_combined_leaves : forall s ws ops,
+  ColdCache.ids_distinct s -> k2_shape s = false ->
+  CombLeafTree.rshape2 (ColdCache.uncache s) = true -> treeA s = true ->
+  RStreamTree.rsmall (ColdCache.uncache s) = true -> WarmCombBounds.tiny2 (ColdCache.uncache s) = true ->
+  answers_equiv (source s) ops (fst (run_hops (ApiTree.run_warm [] s ws) s ops))
+                (fresh_answers (ColdCache.uncache s) ops) 0 = 0.
+Proof. exact WarmCombHist.warm_history_transparent2. Qed.
+Print Assumptions C10_transparent_warm_caches_combined_leaves.
+
+Theorem C10_cached_over_caches_combined_leaves : forall id a ops,
+  ColdCache.ids_distinct (SCached id a) -> k2_shape a = false ->
+  CombLeafTree.rshape2 (ColdCache.uncache a) = true -> treeA a = true ->
+  RStreamTree.rsmall (ColdCache.uncache a) = true -> WarmCombBounds.tiny2 (ColdCache.uncache a) = true ->
+  let '(ans, ref) := api_chist (SCached id a) ops in
+  answers_equiv (source (SCached id a)) ops ans ref 0 = 0.
+Proof. exact WarmCombHist.warm_chist_transparent2. Qed.
+Print Assumptions C10_cached_over_caches_combined_leaves.
+
+(* the hypotheses are satisfiable outside the old class: a combined leaf beneath a CachedSource
+   beneath a ConcatSource; two cached combined leaves, a nested cache and a Replace over a cache *)
+Example C10_combined_warm_nonvacuous : forall r,
+  WarmCombHist.wc_hyps (WarmCombHist.wc_tree r) = (true, false, true, false, true, true, true) /\
+  WarmCombHist.wc_hyps (WarmCombHist.wc_small r) = (true, false, true, false, true, true, true).
+Proof. exact WarmCombHist.wc_tree_hyps. Qed.
